@@ -1,0 +1,26 @@
+//go:build verif
+
+// Verification harness (/verif), concurrency engine: lets the harness put
+// recording decorators between the request handlers and the cache / policy
+// they use. Only the handlers' own references are replaced; the policy and the
+// controllers keep the objects they were created with. This file is only
+// compiled with the `verif` build tag.
+
+package resmgr
+
+import (
+	"github.com/containers/nri-plugins/pkg/resmgr/cache"
+	"github.com/containers/nri-plugins/pkg/resmgr/policy"
+)
+
+// VerifWrapCache replaces the cache used by the request handlers by wrap(cache).
+// Must be called while no request is being processed.
+func (h *VerifHarness) VerifWrapCache(wrap func(cache.Cache) cache.Cache) {
+	h.m.cache = wrap(h.m.cache)
+}
+
+// VerifWrapPolicy replaces the policy used by the request handlers by wrap(policy).
+// Must be called while no request is being processed.
+func (h *VerifHarness) VerifWrapPolicy(wrap func(policy.Policy) policy.Policy) {
+	h.m.policy = wrap(h.m.policy)
+}
